@@ -104,14 +104,17 @@ def run(d, pids, jobs=os.environ.get("SEEDED_JOBS", "6")):
             lines = [l for l in o.splitlines() if l.startswith(("VIOLATION", "INCONCLUSIVE", "harness ", "  reproduced"))]
             if rc != 0 and not any(l.startswith("VIOLATION") for l in lines):
                 open("/tmp/seeded-fail-%s-%s.log" % (name, pid), "w").write(o)
-            runs[pid] = {"exit": rc, "detected": rc == 1 and any(l.startswith("VIOLATION") for l in lines),
+            key = pid
+            if os.environ.get("VERIF_ONLY") and pid in runs and not runs[pid].get("restricted_to_harnesses_matching"):
+                key = "%s+" % pid  # keep the record of an earlier unrestricted run
+            runs[key] = {"exit": rc, "detected": rc == 1 and any(l.startswith("VIOLATION") for l in lines),
                          "wall_s": round(time.time() - t0), "lines": [l[:300].replace(out, "/verif") for l in lines[:8]],
                          "verif_commit": sh(["git", "-C", VERIF, "rev-parse", "--short", "HEAD"])[1].strip()}
             if os.environ.get("VERIF_ONLY"):
-                runs[pid]["restricted_to_harnesses_matching"] = os.environ["VERIF_ONLY"]
+                runs[key]["restricted_to_harnesses_matching"] = os.environ["VERIF_ONLY"]
             if os.environ.get("SEEDED_TIER"):
-                runs[pid]["tier"] = os.environ["SEEDED_TIER"]
-            print(name, pid, "exit", rc, "DETECTED" if runs[pid]["detected"] else "MISSED", "%ds" % runs[pid]["wall_s"], flush=True)
+                runs[key]["tier"] = os.environ["SEEDED_TIER"]
+            print(name, pid, "exit", rc, "DETECTED" if runs[key]["detected"] else "MISSED", "%ds" % runs[key]["wall_s"], flush=True)
             for l in lines[:5]:
                 print("   ", l[:220], flush=True)
     finally:
